@@ -502,7 +502,119 @@ def check_decorator_form(chk):
                                  f"inside the decorated function the defaults seen at entry of each level were {entered}", {"clause": "checkpoint", "decorator": True, "inside": True})
 
 
+def check_body_replaces_callables(chk):
+    """inside a pool context the BODY assigns `aspire.log_prior` / `aspire.log_likelihood` itself (a temporarily tempered or instrumented
+    function) - also the one the context did not replace (the prior under `parallelize_prior=False`, both under `enable_pool(None, ...)`):
+    leaving the context, normally or through an exception, puts back exactly what was there on entry"""
+    for which in ("log_prior", "log_likelihood", "both"):
+        for par in (False, True):
+            for pool_kind in ("pool", "none"):
+                for close in (False, True):
+                    for raises in (False, True):
+                        for inner_auto in (False, True):
+                            if pool_kind == "none" and close:
+                                continue
+                            case = {"level": "body_replaces_callables", "replaced_in_body": which, "parallelize_prior": par, "pool": pool_kind,
+                                    "close_pool": close, "raises": raises, "auto_checkpoint_inside": inner_auto}
+                            chk.count("body_replaces_callables")
+                            chk.case(case if chk.evaluations < 40 else None, json.dumps(case))
+                            a = make_instance()
+                            ll0, lp0 = a.log_likelihood, a.log_prior
+                            had = hasattr(a, "_checkpoint_defaults")
+
+                            def tmp_fn(samples, map_fn=map):
+                                return 0.0
+                            try:
+                                try:
+                                    with a.enable_pool(FakePool(1) if pool_kind == "pool" else None, close_pool=close, parallelize_prior=par):
+                                        if inner_auto:
+                                            with a.auto_checkpoint(path_name(1)):
+                                                if which in ("log_prior", "both"):
+                                                    a.log_prior = tmp_fn
+                                                if which in ("log_likelihood", "both"):
+                                                    a.log_likelihood = tmp_fn
+                                                if raises:
+                                                    raise Boom()
+                                        else:
+                                            if which in ("log_prior", "both"):
+                                                a.log_prior = tmp_fn
+                                            if which in ("log_likelihood", "both"):
+                                                a.log_likelihood = tmp_fn
+                                            if raises:
+                                                raise Boom()
+                                except Boom:
+                                    pass
+                            except Exception as e:   # noqa
+                                chk.fail("likelihood and prior restored on leaving the pool context", case, f"raised {e!r}", {"clause": "likelihood", "body_replaces": True, "exc": type(e).__name__})
+                                continue
+                            left = [n for n, (x, y) in {"log_likelihood": (a.log_likelihood, ll0), "log_prior": (a.log_prior, lp0)}.items() if x is not y]
+                            if left:
+                                chk.fail("likelihood and prior restored on leaving the pool context", case,
+                                         f"{left} assigned inside the pool context is still on the instance after leaving it", {"clause": "likelihood", "body_replaces": True})
+                            if hasattr(a, "_checkpoint_defaults") != had:
+                                chk.fail("checkpoint defaults restored on leaving the auto-checkpoint context", case, "defaults left behind", {"clause": "checkpoint", "body_replaces": True})
+
+
+def check_unusable_paths(chk):
+    """an automatic-checkpoint context opened for a path that cannot be used (no path at all to switch checkpointing off for a block, a path
+    below a regular file, a directory): whatever happens - the body raises at once, entering the context raises - the caller that catches the
+    error finds the instance's defaults exactly as they were, at the top level and inside other contexts"""
+    import os
+    import tempfile
+
+    with tempfile.TemporaryDirectory(prefix="aspire_verif_") as td:
+        blocker = os.path.join(td, "a_file")
+        open(blocker, "w").write("x")
+        paths = {"none": None, "below_a_regular_file": os.path.join(blocker, "sub", "ckpt.h5"), "a_directory": td, "ordinary": os.path.join(td, "ok", "ckpt.h5")}
+        for pname, pth in paths.items():
+            for layout in ("top", "inside auto", "inside pool", "inside pool and auto"):
+                case = {"level": "unusable_path", "path": pname, "layout": layout}
+                chk.count("unusable_paths")
+                chk.case(case if chk.evaluations < 40 else None, json.dumps(case))
+                a = make_instance()
+                ll0, lp0 = a.log_likelihood, a.log_prior
+                seen_mid = []
+
+                def attempt():
+                    try:
+                        with a.auto_checkpoint(pth, every=2):
+                            raise Boom()
+                    except (Boom, OSError, TypeError, ValueError):
+                        pass
+
+                try:
+                    if layout == "top":
+                        attempt()
+                    elif layout == "inside auto":
+                        with a.auto_checkpoint(path_name(2), every=5):
+                            d_in = a._checkpoint_defaults
+                            d_copy = copy.deepcopy(d_in)
+                            attempt()
+                            seen_mid.append(a._checkpoint_defaults is d_in and a._checkpoint_defaults == d_copy)
+                    elif layout == "inside pool":
+                        with a.enable_pool(FakePool(1), parallelize_prior=True):
+                            attempt()
+                            seen_mid.append(not hasattr(a, "_checkpoint_defaults"))
+                    else:
+                        with a.enable_pool(FakePool(1)), a.auto_checkpoint(path_name(2), every=5):
+                            d_in = a._checkpoint_defaults
+                            d_copy = copy.deepcopy(d_in)
+                            attempt()
+                            seen_mid.append(a._checkpoint_defaults is d_in and a._checkpoint_defaults == d_copy)
+                except Exception as e:   # noqa
+                    chk.fail("checkpoint defaults restored on leaving the auto-checkpoint context", case, f"raised {e!r}", {"clause": "checkpoint", "unusable_path": True, "exc": type(e).__name__})
+                    continue
+                if hasattr(a, "_checkpoint_defaults") or (seen_mid and not all(seen_mid)):
+                    chk.fail("checkpoint defaults restored on leaving the auto-checkpoint context", case,
+                             f"after a context for the path `{pname}` was left through an exception: defaults on the instance = {getattr(a, '_checkpoint_defaults', None)}; "
+                             f"enclosing context saw its own defaults again: {seen_mid}", {"clause": "checkpoint", "unusable_path": True})
+                if a.log_likelihood is not ll0 or a.log_prior is not lp0:
+                    chk.fail("likelihood and prior restored on leaving the pool context", case, "callables differ", {"clause": "likelihood", "unusable_path": True})
+
+
 def run(chk: core.Check):
+    check_body_replaces_callables(chk)
+    check_unusable_paths(chk)
     check_decorator_form(chk)
     check_shutdown_faults(chk)
     check_rejected_requests(chk)
@@ -554,7 +666,8 @@ def replay(chk: core.Check, path: str) -> int:
     doc = json.loads(open(path).read())
     p = doc["payload"]
     cases = [p["case"]] if "case" in p else [d["case"] for d in p.get("correspondence", [])]
-    fixed = {"decorator_form": check_decorator_form, "rejected_request": check_rejected_requests}
+    fixed = {"decorator_form": check_decorator_form, "rejected_request": check_rejected_requests, "body_replaces_callables": check_body_replaces_callables,
+             "unusable_path": check_unusable_paths}
     for lv in sorted({c.get("level") for c in cases if c.get("level") in fixed}):
         fixed[lv](chk)           # the fixed scenario family is run again in full
     cases = [c for c in cases if c.get("level") not in fixed]
